@@ -301,6 +301,9 @@ impl Check for C16 {
     fn min_nontrivial(&self, tier: Tier) -> u64 {
         tier.pick(100_000, 1_000_000)
     }
+    fn miri_lane(&self, tier: Tier) -> Option<(Vec<&'static str>, usize, usize)> {
+        if tier == Tier::Thorough { Some((vec!["amount"], 8, 500)) } else { None }
+    }
     fn run_case(&self, cx: &mut Cx) {
         let specials = special_values();
         // ---- values
